@@ -158,7 +158,7 @@ class C20(Prop):
     pid = "C20"
     prop_file = "Props/C20.v"
     module = "Props.C20"
-    gen_deps = ["Table", "ParseCfg", "ParserFn", "Utf8parseFn"]
+    gen_deps = ["Table", "ParseCfg", "ParserFn", "Utf8parseFn", "ArrayVecFn"]
     harness = ("h-parsecfg", "hparsecfg")
     shard_min = 48    # a 1100-byte OSC payload costs the list-based model / spec tens of milliseconds
     nontrivial_rule = ("cases `pc <label> <hex>`, each run through the FOUR builds of anstyle-parse {default, core, core+utf8, no default features} "
@@ -171,7 +171,7 @@ class C20(Prop):
     trusted = ["third-party utf8parse automaton (translated from the registry source of the version Cargo.lock pins and proved equal to Model/Utf8parse.v: tools/gen_fn_utf8parse.py, "
                "Proofs/Utf8parseGen.v; only reached on the high-byte cases; trusted: cargo builds the harness from the directory translated)",
                "cargo feature resolution: each binary is built with --no-default-features --features <set>; `default` through anstyle-parse/default",
-               "arrayvec 0.7 ArrayVec::{is_full,len,push,clear,index} as modelled (list of at most cap bytes)"]
+               "arrayvec 0.7.6 ArrayVec (the `core` buffer): new / Default, len, capacity, is_full, push, try_push, push_unchecked, truncate, clear, set_len, as_slice, Deref, Drop, the default bodies of trait ArrayVecImpl they reach, CapacityError::new and the macro assert_capacity_limit! are TRANSLATED from the registry source of the version Cargo.lock pins (tools/gen_fn_arrayvec.py: unpacked source = the .crate archive of the lock file's checksum = the directory `cargo metadata --all-features` reports for harness/h-parsecfg) and proved to behave, on the representation invariant (slots [0, len) initialised, len <= CAP), as the list the parser translation uses (raw_full, len, guarded `++ [b]`, [], slice) and to preserve the invariant (Proofs/ArrayVecGen.v, c20_translated_arrayvec_*). Trusted: the VALUE-LEVEL reading of its unsafe code (coq/Model/ArrayVec.v: a MaybeUninit slot is an option, a pointer into the buffer is a slot index bound to the vector it came from, ptr::write / from_raw_parts / drop_in_place act on those slots, undefined behaviour = None; size_of::<usize>() = 8), that cargo builds the harness from that directory, and the Clone / PartialEq / Debug impls of ArrayVec (reached by Parser's derives only; differential runs)"]
     assumptions = ["input bytes are < 256 (the Rust type u8)",
                    "osc_fit is defined on the run: no byte reaches OscPut while osc_raw already holds MAX_OSC_RAW bytes "
                    "(a payload of exactly 1024 stored bytes followed by ';' does NOT fit: the fixed buffer drops that ';')"]
